@@ -494,7 +494,7 @@ func c10Explore(sb *proj.Sandbox, p hprog, tier string) c10Result {
 							log = append(log, l)
 						}
 					}
-					cm := hmodel{Last: append([]string{}, st.M.Last...), LastPost: append([]string{}, st.M.LastPost...), Failed: append([]string{}, st.M.Failed...)}
+					cm := hmodel{Last: append([]string{}, st.M.Last...), LastPost: append([]string{}, st.M.LastPost...), Failed: append([]string{}, st.M.Failed...), Unrec: append([]string{}, st.M.Unrec...)}
 					curDisk := hdisk{Files: append([]string{}, st.D.Files...)}
 					for _, l := range log {
 						if !strings.HasSuffix(l, ":1") {
